@@ -22,8 +22,11 @@ META = {
                    'one group, with the lexical mode handed to the body agreeing with the pair ("(" ")" <-> continued code, "{" "}" <-> code), and the wrapper '
                    'returns its body unwrapped only when the mode already was continued code.',
     'decides': 'a line comment can never be followed on its line by a token of the same construct; an optional opening delimiter is printed iff its closing one is, '
-               'and the body inside is converted in the mode the delimiters establish',
-    'does_not_decide': 'token fusion by missing spaces, soft breaks outside delimiters, anything width-dependent (taken whole the property is a runtime quantity)',
+               'and the body inside is converted in the mode the delimiters establish; (R3) at the 21 code-mode sites printed by the flow helper, for every child sequence '
+               'the grammar allows (a Space between every two children), two tokens that the lexer would read as one when written without whitespace are separated by a '
+               'space or a hard break in the returned document; (R4) an expression embedded with `#` in math is converted in code mode',
+    'does_not_decide': 'token fusion outside the flow sites (list / chain stylists, markup and math edges, typed-accessor paths), soft breaks outside delimiters, anything '
+                       'width-dependent (taken whole the property is a runtime quantity)',
     'trusted_base': ['grammar tables (typst-syntax 0.13.1): a line comment is followed by a Space containing a line break or ends its parent',
                      'pretty: hardline always breaks; a group is flat or broken as a whole', 'rustc MIR construction'],
 }
@@ -526,7 +529,22 @@ def r2_optional_delimiters_paired(w):
     return r
 
 
-RULES = [r1_line_comment_discipline, r2_optional_delimiters_paired]
+def r3_token_separation(w):
+    """tokens the lexer would fuse stay separated at the flow sites (lib/tokens.py, rules/tokensep.py)"""
+    from rules import tokensep
+    return tokensep.rule(w, 'C04.R3')
+
+
+def r4_hash_mode(w):
+    """after `#` in math the printer is in code mode (printer side of the mode simulation of C13.R5)"""
+    from rules import c13
+    r = RuleResult('C04.R4', 'in math mode the child that follows a `#` is converted in Code mode at every site the printer simulation reaches', floor=6)
+    for ok, cons, key, why, loc in c13.printer_hash_mode_obligations(w):
+        (r.ok(cons, why) if ok else r.bad(cons, key, why, loc))
+    return r
+
+
+RULES = [r1_line_comment_discipline, r2_optional_delimiters_paired, r3_token_separation, r4_hash_mode]
 for _f in RULES:
     _f.needs = ('core',)
 MATRIX_RULES = [r2_optional_delimiters_paired]
